@@ -42,6 +42,8 @@ def plan(tier, seed):
     for start in range(0, nr, 24):
         cases.append({'kind': 'random', 'start': start, 'count': 24, 'posmode': (start // 24) % 3, 'seed': seed})
     cases.append({'kind': 'pytest-under-contracts'})
+    for i in range(4 if tier == 'quick' else 40):
+        cases.append({'kind': 'long-lived', 'seed': seed * 1000003 + i})
     return cases
 
 
@@ -108,6 +110,8 @@ def run_case(case, rec):
         return contracts_case.run(rec, ID)
     import wn
     from wn import taxonomy
+    if case.get('kind') == 'long-lived':
+        return long_lived(case, rec)
     gs = graphs_of(case)
     if not gs:
         return
@@ -150,6 +154,56 @@ def run_case(case, rec):
     finally:
         steps.restore()
         env.rmtree(work)
+
+
+def long_lived(case, rec):
+    """One Wordnet object kept across changes of the database: what it answers must follow the content (the same questions
+    are put to a Wordnet created afterwards; both must agree and match the model).  A chain lexicon, then an extension that
+    puts new synsets above its top, then the extension removed again."""
+    import wn
+    from wn import taxonomy
+    r = random.Random(case['seed'])
+    n = r.randint(2, 4)
+    k = r.randint(1, 3)
+    pos = r.choice('nv')
+    base = graphs.lexicon_for(0, (n, [(j, j + 1) for j in range(n - 1)]), lambda j: pos, None, words=False)
+    base['id'] = 'll'
+    for ss_ in base['synsets']:
+        ss_['id'] = ss_['id'].replace('g0-', 'll-')
+        for rel in ss_.get('relations', []):
+            rel['target'] = rel['target'].replace('g0-', 'll-')
+    ext_syn = [{'id': f'lx-n{j}', 'ili': '', 'partOfSpeech': pos, 'meta': None,
+                'relations': ([{'target': f'lx-n{j + 1}', 'relType': 'hypernym', 'meta': None}] if j + 1 < k else [])} for j in range(k)]
+    ext = {'id': 'lx', 'label': 'above', 'language': 'en', 'email': 'e', 'license': 'l', 'version': '1', 'meta': None,
+           'extends': {'id': 'll', 'version': '1'},
+           'synsets': [{'id': f'll-n{n - 1}', 'external': True,
+                        'relations': [{'target': 'lx-n0', 'relType': 'hypernym', 'meta': None}]}] + ext_syn}
+    work = env.mkdtemp('c13ll')
+    try:
+        with env.FreshDB():
+            wnio.add(wnio.write_resource({'lmf_version': '1.1', 'lexicons': [base]}, work, random.Random(1), name='ll.xml', surface='plain'))
+            w_old = wn.Wordnet()                          # default mode: its lexicon set is not frozen
+            pe = wnio.write_resource({'lmf_version': '1.1', 'lexicons': [ext]}, work, random.Random(2), name='lx.xml', surface='plain')
+            for stage, depth in (('base only', n - 1), ('extension added', n - 1 + k), ('extension removed', n - 1), ('extension added again', n - 1 + k)):
+                if stage.startswith('extension added'):
+                    wnio.add(pe)
+                elif stage == 'extension removed':
+                    wn.remove('lx:1', progress_handler=None)
+                w_new = wn.Wordnet()
+                bottom_old, bottom_new = w_old.synset('ll-n0'), w_new.synset('ll-n0')
+                for label, w_, b_ in (('kept since before the change', w_old, bottom_old), ('created afterwards', w_new, bottom_new)):
+                    rec.event('long-lived.compared')
+                    # (what a kept Wordnet *enumerates* stays with the lexicons it was created for - its lexicon set is computed
+                    # once, by design - so roots() is only asked of the new one; everything below is reached by navigation)
+                    got = (taxonomy.taxonomy_depth(w_, pos), b_.max_depth(), b_.min_depth(), len(b_.hypernym_paths()[0]) if b_.hypernym_paths() else 0,
+                           len(taxonomy.roots(w_, pos)) if w_ is w_new else 1, len(list(b_.closure('hypernym'))))
+                    want = (depth, depth, depth, depth, 1, depth)
+                    if got != want:
+                        rec.violation('long-lived-wordnet', f'chain of {n} synsets, extension with {k} more above, stage "{stage}", Wordnet {label}: '
+                                      f'(taxonomy_depth, max_depth, min_depth, path length, roots, closure size) = {got}, expected {want}')
+    finally:
+        env.rmtree(work)
+    rec.done(['long-lived', case['seed']], nontrivial=True, sample={'chain': n, 'extension_adds': k})
 
 
 def check_graph(rec, steps, w, lid, g, pos_of, taxonomy, edges, present=None):
